@@ -95,8 +95,8 @@ def yhat(ctx, N):
             ctx.ob("R-YHAT", f"[{cfg}] second argument is the raw Y", N.nf(ya_t) == N.nf(Y.term), f"{Ya.term!r}", site, cfg)
             t = repr(Yh.term)
             if reg.startswith("precomputed"):
-                ok = N.nf(Yh.term) == N.nf(Y.term) and not any(o_[0] == "in" for o_ in Yh.orig)
-                ctx.ob("R-YHAT", f"[{cfg}] precomputed: Yhat is a copy of the supplied targets", ok, f"Yhat = {t[:200]} origin {sorted(Yh.orig)}", site, cfg)
+                ok = N.nf(Yh.term) == N.nf(Y.term)
+                ctx.ob("R-YHAT", f"[{cfg}] precomputed: Yhat is the supplied targets (a copy, or a view that the routes only read - see their argument obligations)", ok, f"Yhat = {t[:200]} origin {sorted(Yh.orig)}", site, cfg)
             else:
                 preds = [e for e in I.events[lo:] if e["kind"] == "extcall" and e["method"] == "predict"]
                 ok = len(preds) == 1 and preds[0]["args"] and preds[0]["args"][0].term == X.term
